@@ -3,6 +3,7 @@ mod common;
 mod det;
 mod kv;
 mod reg;
+mod staking;
 mod tree;
 
 use common::*;
@@ -27,6 +28,9 @@ fn run(id: &str, ctx: &Ctx) -> i32 {
         "C13" => tree::checks::run_c13(ctx),
         "C06" => kv::run_c06(ctx),
         "C07" => kv::run_c07(ctx),
+        "C14" => staking::run_c14(ctx),
+        "C15" => staking::run_c15(ctx),
+        "C16" => staking::run_c16(ctx),
         "C18" => addr::run_c18(ctx),
         "C19" => det::run_c19(ctx),
         _ => machinery_error(&format!("no check for {}", id)),
@@ -45,6 +49,7 @@ fn replay(path: &str) -> i32 {
         "C11" => reg::replay_c11(&ctx, case),
         "C06" => kv::replay_c06(&ctx, case),
         "C07" => kv::replay_c07(&ctx, case),
+        "C14" | "C15" | "C16" => staking::replay(&ctx, case),
         "C18" => addr::replay_c18(&ctx, case),
         "C19" => det::replay_c19(&ctx, case),
         _ => machinery_error(&format!("no replay for {}", id)),
